@@ -48,11 +48,15 @@ RegionFailing(ev) ==
 \* be bent as well ("when they fit").  The harness measured every sample against every choice.
 KClear == 3000
 Slack == 5                 \* milli units: tangent lengths and legs are rounded
-Admissible(c, legs, tans) ==
+\* reff[i]: radius of the element's own arc at corner i (requested radius minus the offset towards the
+\* centre of the turn); an arc needs it to exceed the half width (the inner side cannot have a radius <= 0)
+Admissible(c, legs, tans, reff, hw) ==
     LET n == Len(tans)
         T(ch, i) == IF i >= 1 /\ i <= n /\ ch[i] = 1 THEN tans[i] ELSE 0
-        Fits(ch) == \A j \in DOMAIN legs : T(ch, j - 1) + T(ch, j) <= legs[j] - Slack
-        Overfull(ch) == \E j \in DOMAIN legs : T(ch, j - 1) + T(ch, j) >= legs[j] + Slack IN
+        Fits(ch) == /\ \A j \in DOMAIN legs : T(ch, j - 1) + T(ch, j) <= legs[j] - Slack
+                    /\ \A i \in 1..n : ch[i] = 1 => reff[i] >= hw + Slack
+        Overfull(ch) == \/ \E j \in DOMAIN legs : T(ch, j - 1) + T(ch, j) >= legs[j] + Slack
+                        \/ \E i \in 1..n : ch[i] = 1 /\ reff[i] <= hw + Slack IN
     /\ Fits(c)
     /\ \A i \in 1..n : c[i] = 0 => Overfull([c EXCEPT ![i] = 1])
 ChoiceOK(ch) ==
@@ -61,7 +65,8 @@ ChoiceOK(ch) ==
     miss = {} /\ extra = {} /\ Len(ch.samples) > 20
 BendFailing(ev) ==
     IF ev.err # 0 \/ ev.npoly # 1 THEN {<<0, "no_outline">>}
-    ELSE LET adm == {k \in DOMAIN ev.choices : Admissible(ev.choices[k].c, ev.legs, ev.tans)} IN
+    ELSE LET reff == [i \in DOMAIN ev.dirs |-> ev.g.r - ev.dirs[i] * ev.g.o]
+             adm == {k \in DOMAIN ev.choices : Admissible(ev.choices[k].c, ev.legs, ev.tans, reff, ev.g.w \div 2)} IN
          (IF adm # {} THEN {} ELSE {<<0, "case_too_close_to_a_fitting_boundary">>})
          \cup (IF \E k \in adm : ChoiceOK(ev.choices[k]) THEN {}
                ELSE {<<0, "outline_is_not_the_swept_region_of_any_admissible_set_of_bends">>})
